@@ -38,7 +38,9 @@ def check_rect(case):
     m = W.shape[1]
     svec = np.broadcast_to(np.asarray(s, float), (m,)) if not isinstance(s, list) else np.array(s, float)
     labels = list(gen.cone_labels(spec)) + ["slack:" + ("vector" if isinstance(s, list) else "zero" if s == 0 else "scalar")]
-    R1, R2 = gr.mk_rect(r1), gr.mk_rect(r2)
+    R1, R2, r1, r2 = gr.region_pair(case, "rect", lambda a, b: confidence_region_is_dominated(order, a, b, _slack_arr(s)))
+    if case.get("first"):
+        labels.append("objects-updated-after-a-comparison")
     got = bool(confidence_region_is_dominated(order, R1, R2, _slack_arr(s)))
     lo = np.array(r2["lo"]) - np.array(r1["hi"])
     hi = np.array(r2["hi"]) - np.array(r1["lo"])
@@ -82,7 +84,9 @@ def check_ell(case):
     s = case["slack"]
     K = W.shape[0]
     labels = list(gen.cone_labels(spec)) + ["slack:" + ("vector" if isinstance(s, list) else "zero" if s == 0 else "scalar")]
-    E1, E2 = gr.mk_ell(e1), gr.mk_ell(e2)
+    E1, E2, e1, e2 = gr.region_pair(case, "ell", lambda a, b: confidence_region_is_dominated(order, a, b, _slack_arr(s)))
+    if case.get("first"):
+        labels.append("objects-updated-after-a-comparison")
     got = bool(confidence_region_is_dominated(order, E1, E2, _slack_arr(s)))
     mg = geom.ell_dominated_margins(W, np.array(e1["c"]), np.array(e1["S"]), e1["a"], np.array(e2["c"]), np.array(e2["S"]), e2["a"],
                                     np.array(s, float) if isinstance(s, list) else float(s))
@@ -204,6 +208,19 @@ def st_ell_case(draw, small=False):
     return {"cone": spec, "r1": gr.shift_region(e1, t), "r2": gr.shift_region(e2, t), "slack": s}
 
 
+@st.composite
+def st_updated(draw, kind):
+    small = kind == "ell" and draw(st.booleans())
+    case = draw(st_rect_case()) if kind == "rect" else draw(st_ell_case(small=small))
+    m = len(case["r1"]["lo"] if kind == "rect" else case["r1"]["c"])
+    if kind == "ell":
+        sc = case["r1"]["a"] * float(np.sqrt(np.max(np.diag(np.array(case["r1"]["S"])))))
+    else:
+        sc = max(1e-6, float(np.max(np.array(case["r1"]["hi"]) - np.array(case["r1"]["lo"]))))
+    case["first"] = draw(gr.st_first_pair(kind, m, sc, small))
+    return case
+
+
 COMPONENTS = [
     Component("rect_margin_targeted", check_rect, strategy=st_rect_case, quick=2500, thorough=60000,
               rule="hyper-rectangles 1e-4..1e2, zero-width edges, all cone classes, scalar/vector slack"),
@@ -213,4 +230,8 @@ COMPONENTS = [
               rule="ellipsoids with extents 1e-4..1e2, condition <=1e3, radius 0.1..50, per-facet slack"),
     Component("ell_small_correlated", check_ell, strategy=lambda: st_ell_case(small=True), quick=300, thorough=8000,
               rule="extents 1e-5..1e-3 written as radius 10..50 x rotated covariance with entries <= 1e-8; margins 0.1..1 x extent"),
+    Component("rect_updated_objects", check_rect, strategy=lambda: st_updated("rect"), quick=400, thorough=10000,
+              rule="region objects built for another pair, compared once, then moved to the case's pair through update()"),
+    Component("ell_updated_objects", check_ell, strategy=lambda: st_updated("ell"), quick=300, thorough=8000,
+              rule="as rect_updated_objects for ellipsoids; half of them small correlated (covariances differing by < 1e-8)"),
 ]
